@@ -242,7 +242,16 @@ impl Property for C19 {
                     out.verdict = Verdict::Fail { sig: "C19|empty-error-text".into(), msg: format!("error renders to an empty string for bytes {}", c.code) };
                 }
             }
-            Emu::Ok(_) => {}
+            Emu::Ok(_) => {
+                // "undecodable, unsupported … instructions are reported as errors" — what the fetch sees does
+                // not decode, or decodes to a mnemonic the emulator itself lists as unsupported (which *forms* of
+                // a supported mnemonic are implemented is not judged: that set may grow)
+                if !d.valid {
+                    out.verdict = Verdict::Fail { sig: "C19|undecodable-bytes-reported-as-success".into(), msg: format!("the bytes {} at {:#x} (layout {}) do not decode, yet the step returned Ok", c.code, c.rip, c.layout) };
+                } else if !insn::mnemonic_supported(d.ins.mnemonic()) {
+                    out.verdict = Verdict::Fail { sig: format!("C19|unsupported-mnemonic-reported-as-success|{:?}", d.ins.mnemonic()), msg: format!("{} [{}] is not among the supported mnemonics, yet the step returned Ok", d.ins, c.code) };
+                }
+            }
         }
         out
     }
